@@ -425,7 +425,16 @@ func (x *executor) binop(m *machine, fr *frame, in *ssa.BinOp) {
 	var ovf []overflowCheck
 	r := c.arith(in.Op, a.t, b.t, xt, &ovf)
 	x.overflowObls(m, fr, in, ovf)
-	fr.env[in] = Val{t: r, typ: in.Type()}
+	fr.env[in] = Val{t: x.nameIfBig(m.st, in.Name(), r), typ: in.Type()}
+}
+
+// nameIfBig introduces a named constant for a large term (keeps VCs small and shareable)
+func (x *executor) nameIfBig(st *state, hint string, t *T) *T {
+	if t.bit != nil || t.size(10) <= 9 {
+		return t
+	}
+	n := x.c.name(st, "v_"+hint, t)
+	return n
 }
 
 func (x *executor) compareVals(m *machine, op token.Token, a, b Val, at, bt types.Type) *T {
@@ -677,7 +686,7 @@ func (x *executor) typeAssert(m *machine, fr *frame, in *ssa.TypeAssert) {
 		// interface-to-interface assertion: succeeds iff non-nil and implements; abstract
 		c.d.fun("implements", []string{"Iface", "Int"}, "Bool")
 		ok := mkAnd(mkNot(c.ifaceIsNil(v.t)), app("implements", "Bool", v.t, refConst(int64(c.typeID(in.AssertedType)))))
-		if types.Identical(in.AssertedType.Underlying(), types.NewInterfaceType(nil, nil)) {
+		if types.Identical(in.AssertedType.Underlying(), types.NewInterfaceType(nil, nil)) || types.Identical(in.AssertedType, in.X.Type()) {
 			ok = mkNot(c.ifaceIsNil(v.t))
 		}
 		if in.CommaOk {
@@ -733,7 +742,7 @@ func (x *executor) checkPost(m *machine, fr *frame, rs []Val) {
 		}
 		vars[fmt.Sprintf("res%d", i)] = rs[i]
 		if i == sig.Results().Len()-1 && types.Identical(r.Type(), types.Universe.Lookup("error").Type()) {
-			if _, taken := vars["err"]; !taken || r.Name() == "" {
+			if _, taken := x.params["err"]; !taken {
 				vars["err"] = rs[i]
 			}
 		}
